@@ -1,4 +1,6 @@
 import Proofs.Lemmas.Framing
+import Proofs.Lemmas.Delivery
+import Proofs.Lemmas.Emission
 import Proofs.Facts
 /-!
   C01 — messages arrive exactly once, in order, intact, on the right RPC.
@@ -55,5 +57,134 @@ theorem C01_parse_append (st : RState α) (fs gs : List (DFrame α)) :
 -- non-vacuity: a 5-byte message under windows 2 then 3 (chunkMax 2)
 example : (pump 2 2 (Snd.start [1,2,3,4,5])).1 = [.env 5 [1,2]] := by decide
 example : (parse none [DFrame.env 5 [1,2], .more [3,4], .more [5]]).1 = [[1,2,3,4,5]] := by decide
+
+end Proofs.C01
+
+/-! ## Part 2 — end to end over a FIFO carrier
+
+  Each endpoint's stream object is an open system: what it delivers to its
+  application is a function of the events it sees (frames fed to it, its
+  application's calls, context ends), and what it puts on the wire is a function
+  of ITS events.  A FIFO, reliable-until-it-ends carrier means exactly this:
+  the frames fed to the receiving stream are a PREFIX (in order, nothing
+  inserted) of the frames the sending stream emitted.  Under that one
+  hypothesis — and the grpc-go stream contract for the applications (one sender
+  and one receiver goroutine per RPC side, no send after a failed send) — the
+  messages delivered are a prefix of the messages submitted, byte for byte, for
+  EVERY pair of event histories, i.e. for every interleaving, every message
+  size, every window schedule, every cancellation / deadline / tear-down point,
+  and whatever else the peers or other RPCs do.
+-/
+
+namespace Proofs.C01
+open TunnelModel.LFrame TunnelModel.Framing Proofs.Delivery Proofs.Emission
+
+variable {α : Type}
+
+/-- all frames fed to a server stream, in order -/
+def fedFramesS (evs : List (SEv α)) : List (C2S α) :=
+  evs.filterMap (fun e => match e with | .frame f => some f | _ => none)
+
+/-- all frames a client stream emitted, in order -/
+def emittedFramesC (outs : List (COut α)) : List (C2S α) := outs.flatMap (fun o => o.frames.map (·.2))
+
+def fedFramesC (evs : List (CEv α)) : List (S2C α) :=
+  evs.filterMap (fun e => match e with | .frame f => some f | _ => none)
+
+def emittedFramesS (outs : List (Out α)) : List (S2C α) := outs.flatMap (fun o => o.frames.map (·.2))
+
+theorem fedData_eq_S (evs : List (SEv α)) : SEv.fedData evs = (fedFramesS evs).filterMap dataOfC2S := by
+  induction evs with
+  | nil => rfl
+  | cons e es ih =>
+    cases e with
+    | frame f =>
+      simp only [SEv.fedData, fedFramesS, List.filterMap_cons] at ih ⊢
+      cases hd : dataOfC2S f <;> simp [hd, ih]
+    | call c => simpa [SEv.fedData, fedFramesS] using ih
+    | ctx c => simpa [SEv.fedData, fedFramesS] using ih
+
+theorem fedData_eq_C (evs : List (CEv α)) : CEv.fedData evs = (fedFramesC evs).filterMap dataOfS2C := by
+  induction evs with
+  | nil => rfl
+  | cons e es ih =>
+    cases e with
+    | frame f =>
+      simp only [CEv.fedData, fedFramesC, List.filterMap_cons] at ih ⊢
+      cases hd : dataOfS2C f <;> simp [hd, ih]
+    | call c => simpa [CEv.fedData, fedFramesC] using ih
+    | ctx c => simpa [CEv.fedData, fedFramesC] using ih
+
+theorem emittedData_eq_C (outs : List (COut α)) :
+    COut.emittedData outs = (emittedFramesC outs).filterMap dataOfC2S := by
+  induction outs with
+  | nil => rfl
+  | cons o os ih =>
+    simp only [COut.emittedData, emittedFramesC, List.flatMap_cons, List.filterMap_append] at ih ⊢
+    rw [ih]; simp [List.filterMap_map, Function.comp_def]
+
+theorem emittedData_eq_S (outs : List (Out α)) :
+    Out.emittedData outs = (emittedFramesS outs).filterMap dataOfS2C := by
+  induction outs with
+  | nil => rfl
+  | cons o os ih =>
+    simp only [Out.emittedData, emittedFramesS, List.flatMap_cons, List.filterMap_append] at ih ⊢
+    rw [ih]; simp [List.filterMap_map, Function.comp_def]
+
+theorem prefix_filterMap {β γ} (f : β → Option γ) {l₁ l₂ : List β} (h : l₁ <+: l₂) :
+    l₁.filterMap f <+: l₂.filterMap f := by
+  obtain ⟨t, rfl⟩ := h
+  rw [List.filterMap_append]
+  exact List.prefix_append _ _
+
+/-- **C01, request direction (caller → handler).** -/
+theorem C01_request_prefix (ccfg : CCfg) (scfg : SCfg) (hcm : 0 < ccfg.chunkMax) (sid : Sid)
+    (c0 : CStream α) (s0 : SStream α)
+    (hc0 : c0.psend = none) (hs0 : Fresh s0) (hfc : s0.fc = true)
+    (cevs : List (CEv α)) (sevs : List (SEv α))
+    (hsend : CStream.legalSends ccfg sid c0 false cevs = true)      -- one sender, no send after a failed send
+    (hrecv : legalRecvsS scfg sid s0 sevs = true)                   -- one receiver
+    (hfifo : fedFramesS sevs <+: emittedFramesC (CStream.runEv ccfg sid c0 cevs).2) :   -- FIFO carrier
+    Out.deliveredMsgs (SStream.runEv scfg sid s0 sevs).2 <+: CEv.submitted cevs := by
+  have hdel := server_delivers_parsed_prefix scfg sid s0 hs0 hfc sevs hrecv
+  obtain ⟨ms, st, hparse, hms⟩ := client_emits_chunkings ccfg hcm sid c0 hc0 cevs hsend
+  have hdata : SEv.fedData sevs <+: COut.emittedData (CStream.runEv ccfg sid c0 cevs).2 := by
+    rw [fedData_eq_S, emittedData_eq_C]; exact prefix_filterMap _ hfifo
+  obtain ⟨rest, hrest⟩ := hdata
+  have hmono := parse_msgs_prefix (none : RState α) (SEv.fedData sevs) rest
+  rw [hrest, hparse] at hmono
+  exact List.IsPrefix.trans hdel (List.IsPrefix.trans hmono hms)
+
+/-- **C01, response direction (handler → caller).**  `hreply`: a unary handler
+    replies once and returns (no send after its reply). -/
+theorem C01_response_prefix (ccfg : CCfg) (scfg : SCfg) (hcm : 0 < scfg.chunkMax) (sid : Sid)
+    (c0 : CStream α) (s0 : SStream α)
+    (hs0 : s0.psend = none) (hs0f : s0.finishAfterSend = false) (hc0 : CFresh c0) (hfc : c0.fc = true)
+    (cevs : List (CEv α)) (sevs : List (SEv α))
+    (hsend : SStream.legalSends scfg sid s0 false sevs = true) (hreply : sReplyIsLast sevs = true)
+    (hrecv : legalRecvsC ccfg sid c0 cevs = true)
+    (hfifo : fedFramesC cevs <+: emittedFramesS (SStream.runEv scfg sid s0 sevs).2) :
+    COut.deliveredMsgs (CStream.runEv ccfg sid c0 cevs).2 <+: SEv.submitted sevs := by
+  have hdel := client_delivers_parsed_prefix ccfg sid c0 hc0 hfc cevs hrecv
+  obtain ⟨ms, st, hparse, hms⟩ := server_emits_chunkings_partial scfg hcm sid s0 hs0 hs0f sevs hsend hreply
+  have hdata : CEv.fedData cevs <+: Out.emittedData (SStream.runEv scfg sid s0 sevs).2 := by
+    rw [fedData_eq_C, emittedData_eq_S]; exact prefix_filterMap _ hfifo
+  obtain ⟨rest, hrest⟩ := hdata
+  have hmono := parse_msgs_prefix (none : RState α) (CEv.fedData cevs) rest
+  rw [hrest, hparse] at hmono
+  exact List.IsPrefix.trans hdel (List.IsPrefix.trans hmono hms)
+
+/-- **No fabrication, duplication or reordering**: every message the handler
+    obtains is one of the submitted messages, and it obtains no more than were
+    submitted (corollary of the prefix theorem). -/
+theorem C01_request_no_fabrication (ccfg : CCfg) (scfg : SCfg) (hcm : 0 < ccfg.chunkMax) (sid : Sid)
+    (c0 : CStream α) (s0 : SStream α) (hc0 : c0.psend = none) (hs0 : Fresh s0) (hfc : s0.fc = true)
+    (cevs : List (CEv α)) (sevs : List (SEv α))
+    (hsend : CStream.legalSends ccfg sid c0 false cevs = true) (hrecv : legalRecvsS scfg sid s0 sevs = true)
+    (hfifo : fedFramesS sevs <+: emittedFramesC (CStream.runEv ccfg sid c0 cevs).2) :
+    (∀ m ∈ Out.deliveredMsgs (SStream.runEv scfg sid s0 sevs).2, m ∈ CEv.submitted cevs) ∧
+    (Out.deliveredMsgs (SStream.runEv scfg sid s0 sevs).2).length ≤ (CEv.submitted cevs).length := by
+  have h := C01_request_prefix ccfg scfg hcm sid c0 s0 hc0 hs0 hfc cevs sevs hsend hrecv hfifo
+  exact ⟨fun m hm => h.subset hm, h.length_le⟩
 
 end Proofs.C01
